@@ -57,16 +57,36 @@ def teardown(w):
     fakegpu.cleanup()
 
 
-def sources_for(cls):
+def sources_for(cls, rng=None, w=None):
+    """Specialised accessor sources of the four targets.  In half of the cases the kernel descriptions are generated
+    ONCE and reused for all targets, with the calls a real CPU compilation makes (declarations generated with an empty
+    configuration) in between -- the GPU sources must not depend on what was generated for another target before."""
     out = {}
-    for t in ("cpu_serial", "cpu_openmp"):
-        ks = _ctx[t].build_kernels(kernel_descriptions=cls._gen_kernels(), sources=[], compile=False)
-        k = next(iter(ks.values()))
-        out[t] = k.specialized_source
-        out["raw"] = k.source
+    reuse = rng is not None and rng.random() < 0.5
+    kd = cls._gen_kernels() if reuse else None
+    if reuse and w is not None:
+        w.count("kernel_descriptions_reused_across_targets")
+    order = ["cpu", "gpu"] if (rng is None or rng.random() < 0.7) else ["gpu", "cpu"]
+    for part in order:
+        if part == "cpu":
+            for t in ("cpu_serial", "cpu_openmp"):
+                ks = _ctx[t].build_kernels(kernel_descriptions=kd if reuse else cls._gen_kernels(), sources=[], compile=False)
+                k = next(iter(ks.values()))
+                out[t] = k.specialized_source
+                out["raw"] = k.source
+                if reuse:
+                    from xobjects.context import sort_classes
+                    for c_ in sort_classes([cls]):
+                        c_._gen_c_decl({})  # what ContextCpu.build_kernels(compile=True) does for the cffi cdefs
+        else:
+            _gpu_sources(cls, kd if reuse else None, out)
+    return out
+
+
+def _gpu_sources(cls, kd, out):
     for t in ("opencl", "cuda"):
         n0 = len(fakegpu.recorded)
-        _ctx[t].build_kernels(sources=[], kernel_descriptions=cls._gen_kernels())
+        _ctx[t].build_kernels(sources=[], kernel_descriptions=kd if kd is not None else cls._gen_kernels())
         rec = fakegpu.recorded[n0:]
         assert len(rec) == 1 and rec[0][0] == t
         out[t] = rec[0][1]
@@ -150,7 +170,7 @@ def run_case(w, rng):
             w.violation(f"construct-{exc_kind(e)}", f"{type(e).__name__}: {e}", c.info)
             return
         try:
-            S = sources_for(c.cls)
+            S = sources_for(c.cls, rng, w)
         except Exception as e:
             viol(f"source-generation-{type(e).__name__}", f"{str(e)[-800:]}")
             return
